@@ -109,6 +109,14 @@ def gen_params(rng):
 
 
 # ----------------------------------------------------------------------------- comparison up to the documented normalisation
+def _sr(v):
+    """repr that cannot fail (a value read back under a changed tree may be an object whose own repr raises)."""
+    try:
+        return repr(v)
+    except Exception as e:
+        return f"<{type(v).__name__}: repr raised {type(e).__name__}>"
+
+
 def same(exp, got):
     """exp: value produced by the component; got: value read from the Result."""
     from coba.results.core import Missing
@@ -171,13 +179,21 @@ class C07:
                         # (a chunked environment keeps all its tasks - and one copy of their evaluator - together on one worker)
                         + ([["chunk", {"cache": rng.random() < 0.5}]] if rng.random() < 0.4 else [])} for i in range(n_env)]
         lrns = [["plearner", {"tag": f"l{i}", "params": gen_params(rng)}] for i in range(n_lrn)]
+        if n_lrn == 2 and rng.random() < 0.15:
+            # two learners of different classes that were given one and the same config dict (which names no family)
+            lrns[0][1]["share"] = lrns[1][1]["share"] = "cfg"
+            lrns[1][0] = "plearnerB"
+            lrns[1][1]["params"] = lrns[0][1]["params"]
         rows_by = {}
         for i in range(n_env):
             for j in range(n_lrn):
                 rows_by[f"T{i}/l{j}"] = gen_rows(rng, homogeneous)
-        vals = [["rows", {"rows_by_env": rows_by, "params": gen_params(rng), "tag": "rv", "reuse_list": rng.random() < 0.3}]]
+        vals = [["rows", {"rows_by_env": rows_by, "params": gen_params(rng), "tag": "rv", "reuse_list": rng.random() < 0.3, "readonly_params": rng.random() < 0.1}]]
         if rng.random() < 0.3:
             vals.append(["tap", {"inner": ["seqcb", {"record": ["reward", "action", "probability", "context", "actions", "rewards"]}], "tag": "tap"}])
+            # (not generated: a grounded environment under the ordinary evaluator.  SequentialCB copies the interaction's 'feedbacks' function into
+            #  every row - SequentialIGL relies on that - and a record with a value JSON cannot encode is logged and skipped as a whole, so such a
+            #  triple has no rows.  Reported by a bug-hunt sub-agent; see DESIGN 10.8.)
         spec = {"envs": envs, "learners": lrns, "evaluators": vals, "shape": "product", "seed": 1, "quiet": True,
                 "description": weighted(rng, [(None, 1), ("désc \"q\"\nnl", 1)]), "homogeneous": homogeneous}
         return {"spec": spec, "config": X.gen_config(rng), "knobs": X.gen_knobs(rng), "cut": rng.random(),
@@ -344,7 +360,7 @@ class C07:
                 k = same_row(e, g)
                 if k is not None:
                     ek = {str(a): b for a, b in e.items()}
-                    vios.append(vio("row_value", f"{label}: triple {tid} row {i + 1} field {k!r}: evaluator yielded {ek.get(k)!r}, table has {g.get(k)!r}"))
+                    vios.append(vio("row_value", f"{label}: triple {tid} row {i + 1} field {k!r}: evaluator yielded {_sr(ek.get(k))}, table has {_sr(g.get(k))}"))
                     break
         # parameter tables
         def check_params(table, idcol, comps, safe, what):
@@ -354,10 +370,22 @@ class C07:
                 if c in seen:
                     continue
                 seen[c] = len(seen)
+                # expected: what the component itself says (asked on this untouched build), plus the type name the wrapper adds when missing
                 try:
-                    p = dict(safe(c).params)
+                    raw = c.params
+                    raw = raw() if callable(raw) else raw
                 except Exception:
                     continue
+                from collections.abc import Mapping as _Mapping
+                if what == "learner" and not isinstance(raw, dict):
+                    p = {"params": str(raw)}
+                elif isinstance(raw, _Mapping):
+                    p = dict(raw)
+                else:
+                    continue
+                tkey = {"environment": "env_type", "learner": "family", "evaluator": "eval_type"}[what]
+                if what == "evaluator" or tkey not in p:
+                    p[tkey] = type(c).__name__ if type(c).__name__ != "function" else c.__name__
                 g = rows.get(seen[c])
                 if g is None:
                     vios.append(vio("params_row_missing", f"{label}: no {what} row for id {seen[c]}"))
@@ -366,7 +394,7 @@ class C07:
                 for k in set(map(str, p)) | set(g):
                     if not same({str(a): b for a, b in p.items()}.get(k), g.get(k)):
                         vios.append(vio("params_value", f"{label}: {what} {seen[c]} param {k!r}: component says "
-                                                        f"{ {str(a): b for a, b in p.items()}.get(k)!r}, table has {g.get(k)!r}"))
+                                                        f"{_sr({str(a): b for a, b in p.items()}.get(k))}, table has {_sr(g.get(k))}"))
                         return
         check_params(res.environments, "environment_id", [e for e, _, _ in exp._triples], SafeEnvironment, "environment")
         check_params(res.learners, "learner_id", [l for _, l, _ in exp._triples], SafeLearner, "learner")
